@@ -314,6 +314,13 @@ func errorSite(fset *token.FileSet, file *ast.File, pos string) string {
 		return "decl"
 	}
 	for _, d := range file.Decls {
+		if gd, ok := d.(*ast.GenDecl); ok && gd.Tok == token.VAR && len(gd.Specs) == 1 {
+			// the self-check line: var _ Iface = &Mock{}
+			if vs, ok := gd.Specs[0].(*ast.ValueSpec); ok && len(vs.Names) == 1 && vs.Names[0].Name == "_" &&
+				fset.Position(gd.Pos()).Line <= line && line <= fset.Position(gd.End()).Line {
+				return "ensure"
+			}
+		}
 		fd, ok := d.(*ast.FuncDecl)
 		if !ok || fd.Body == nil {
 			continue
